@@ -107,7 +107,7 @@ class Engine:
         return d
 
     # ------------------------------------------------------------ generate
-    def gen(self, T, prop, tier, ctx=None):
+    def gen(self, T, prop, tier, ctx=None, allow_interrupt=False):
         use_defaults_fmt = T.draw(5) == 0
         long_ = (not use_defaults_fmt) and T.draw(9) == 0
         if long_:
@@ -191,13 +191,15 @@ class Engine:
         save_O = T.draw(3) == 0
         join = None
         if T.draw(4) == 0:
-            join = T.choice([0, 0.4, 1, 1.5, 0.6, 2.75, 3.5, 7]) / sr
+            # (no exact .5 ties: how round() breaks them is not stated)
+            join = T.choice([0, 0.4, 1, 1.4, 0.6, 2.75, 3.6, 7]) / sr
         outfmt = T.choice([None, None, "wav", "raw"])
         o_ext = T.choice(["wav", "raw"])
         O_ext = T.weighted([(4, "wav"), (4, "raw"), (1, "ogg")])
         T.draw(10)
         cmd = False   # -C is not part of the statement: not generated
-        debug_file = T.draw(5) == 0
+        T.draw(5)
+        debug_file = False   # --debug-file is not part of the statement
         wav_trailer = T.draw(3) == 0
         stale_tmp = T.draw(3) == 0
         if T.draw(25) == 0 and not save_O and not quiet:
@@ -208,6 +210,10 @@ class Engine:
                                       "print", "sleep"]),
                     "j": 1 + T.draw(n + 3),
                     "time": T.choice([0.0, 0.5, 1.0, 1.5, 3.0, 10.0])}
+        if not allow_interrupt:
+            # C15 quantifies over options x recordings; Ctrl-C is C14's
+            # subject (engine stopmix generates the interrupted cli runs)
+            intr = None
         sc = {"prop": prop, "fmt": [sw, ch, sr, bsz], "n": n, "extra": extra,
               "kind": kind, "large": large, "opt": opt, "long": long_,
               "defaults_fmt": use_defaults_fmt, "printf": pf,
@@ -255,7 +261,7 @@ class Engine:
             if sc["extra"]:
                 data += make_cli_window(len(sc["pattern"]), 1, sc["extra"],
                                         sw, ch)
-        tmp = C.scratch_dir()
+        tmp = C.scratch_dir(collect=True)
         seams.reset_captures(tmp)
         scfg = dict(sc["sched"])
         scfg["trace_files"] = _trace_files()
@@ -402,6 +408,15 @@ class Engine:
             if sim.harness_error:
                 out["error"] = sim.harness_error
                 return out
+            if intr is not None and "intr_seq" in res and any(
+                    e[2] == "interrupt.delivered" for e in sim.log):
+                out["faults"]["interrupt:" + intr["kind"]] = 1
+            from .srcs import _harness_exc
+            for t_ in sim.threads:
+                if t_.exc is not None and _harness_exc(t_.exc):
+                    out["error"] = ("gap of the simulated stdin: %r\n%s" % (
+                        t_.exc, (t_.exc_tb or "")[-600:]))
+                    return out
             try:
                 out["violation"] = self._judge(sc, sim, res, failure, data,
                                                pipe, tmp, o_tmpl, O_path,
@@ -468,10 +483,18 @@ class Engine:
             out["probes"]["join_without_O_status_1"] = 1
             return None
         if sc["bad_time_format"]:
-            # "raises an error": an exception out of main, or a non-zero
-            # exit status - and no detection line
-            if rc == 0 or any("|" in ln or ln[:1].isdigit()
-                              for ln in seams.PRINTED):
+            # "raises an error": an exception (out of main, or in the thread
+            # that formats), or a non-zero exit status - and no detection
+            # line.  Judged only when there is something to format.
+            nv_ = len(data) // bps
+            if "M" in opt:
+                nv_ = min(nv_, round(opt["M"] * sr))
+            if failure is not None or not self._api(sc, data[:nv_ * bps]):
+                out["probes"]["bad_time_format_not_judged"] = 1
+                return None
+            raised = rc != 0 or any(t.exc is not None for t in sim.threads)
+            if not raised or any("|" in ln or ln[:1].isdigit()
+                                 for ln in seams.PRINTED):
                 return V("C15.1", "unknown time-format directive %r accepted: "
                          "rc=%r, output %r" % (sc["bad_time_format"],
                                                res.get("rc"),
@@ -494,17 +517,16 @@ class Engine:
                      "C15.4:" + kind)
         interrupted_ = intr is not None and any(
             e[2] == "interrupt.delivered" for e in sim.log)
-        is_ogg = sc["save_O"] and (sc["outfmt"] or sc["O_ext"]) == "ogg"
-        if rc != 0 and not interrupted_ and not is_ogg:
+        is_ogg = sc["save_O"] and sc["O_ext"] == "ogg"
+        c14_only = sc.get("_via") == "cli"
+        if rc != 0 and not interrupted_ and not is_ogg and not c14_only:
             # (the status after Ctrl-C, or when the requested output could
             # not be encoded, is not fixed by the statement)
             return V("C15.1", "exit status %r, expected 0 (argv %r)" % (
                 res.get("rc"), argv), "C15.1:status")
-        if not isinstance(rc, int):
+        if not isinstance(rc, int) and not c14_only:
             return V("C15.1", "exit status %r is not an integer" % (
                 res.get("rc"),), "C15.1:status_type")
-        # main must be the last thread to finish (it waits for the workers)
-        last_exit = max(e[0] for e in sim.log if e[2] == "exit")
         # ---- which prefix was read?
         nvis = len(data) // bps
         if "M" in opt:
@@ -613,13 +635,18 @@ class Engine:
                  if not (role in dr and q > xs)]
         if len(lines) != len(seams.PRINTED):
             res["_lost_at_exit"] = len(seams.PRINTED) - len(lines)
+        c14_only = sc.get("_via") == "cli"
         if sc["quiet"]:
-            if lines:
+            if lines and not c14_only:
                 return V("C15.2", "-q given but %d line(s) printed: %r" % (
                     len(lines), lines[:3]), "C15.2:quiet")
         else:
             pf = sc["printf"] if sc["printf"] is not None \
                 else DEFAULTS["printf"]
+            # backslash sequences in the template: translated (what the
+            # pinned tree does for \n \t \r) or literal - the statement
+            # does not say
+            pf_raw = pf
             pf = pf.replace("\\n", "\n").replace("\\t", "\t").replace(
                 "\\r", "\r")
             tf = sc["time_format"] or DEFAULTS["time_format"]
@@ -627,7 +654,12 @@ class Engine:
                 return V("C15.1", "%d line(s) printed for %d detection(s): %r"
                          % (len(lines), len(E), lines[:6]), "C15.1:line_count")
             for i, (ln, r) in enumerate(zip(lines, E), 1):
+                if c14_only:
+                    break   # formatting is C15's business
                 msg = _check_line(ln, pf, tf, i, r)
+                if msg and pf_raw != pf and not _check_line(ln, pf_raw, tf,
+                                                            i, r):
+                    msg = None
                 if msg:
                     return V("C15.1", "line %d %r: %s (detection start=%r "
                              "end=%r duration=%r, printf %r, time-format %r)"
@@ -645,18 +677,18 @@ class Engine:
                     [os.path.basename(f) for f in sorted(names)]),
                     "C15.3:o_names")
             for nme, r in zip(names, E):
-                d, hp = _read_audio(nme, res.get("T") or sc["o_ext"])
+                d, hp = _read_audio(nme, sc["o_ext"], res.get("T"))
                 if d != bytes(r.data) or (hp and hp != (sr, sw, ch)):
                     return V("C15.3", "-o file %s differs from its detection"
                              % os.path.basename(nme), "C15.3:o_data")
-        if O_path is not None and (res.get("T") or sc["O_ext"]) == "ogg":
+        if O_path is not None and sc["O_ext"] == "ogg":
             # needs an external encoder, none can be started: the warning
             # goes to stderr, stdout and the exit status are as usual
             # (checked above); the file itself is not judged
             pass
         elif O_path is not None:
             try:
-                d, hp = _read_audio(O_path, res.get("T") or sc["O_ext"])
+                d, hp = _read_audio(O_path, sc["O_ext"], res.get("T"))
             except Exception as e:
                 return V("C15.3", "-O file unreadable: %r" % (e,),
                          "C15.3:O_unreadable")
@@ -698,8 +730,17 @@ def _status(rc, main_t):
     return rc
 
 
-def _read_audio(path, ext):
-    if ext == "wav":
+def _read_audio(path, ext, explicit=None):
+    """Audio of an output file.  When an explicit -T contradicts the
+    extension, which of the two decides the container is not stated: the
+    audio is accepted in either."""
+    if explicit is not None and explicit != ext:
+        try:
+            return C.read_wav(path)
+        except Exception:
+            with open(path, "rb") as f:
+                return f.read(), None
+    if (explicit or ext) == "wav":
         return C.read_wav(path)
     with open(path, "rb") as f:
         return f.read(), None
@@ -721,7 +762,10 @@ def _check_time(text, tf, x):
     # in floating point (0.3 s is 300 ms, not the 299 an exact-rational floor
     # of the binary value would give)
     import math
-    ms_ok = {math.floor(x * 1000), math.ceil(x * 1000)}
+    from fractions import Fraction
+    xq = Fraction(x) * 1000       # the stored value, exactly
+    ms_ok = {math.floor(x * 1000), math.ceil(x * 1000),
+             math.floor(xq), math.ceil(xq)}
     if tf == "%I":
         if not re.fullmatch(r"\d+", text):
             return "%r is not whole milliseconds" % text
